@@ -10,13 +10,16 @@ SRC="/tmp/seed_$PROP"
 OUT="/verif/seeded/$NAME"
 mkdir -p "$OUT"
 for f in patch.diff demo.sh demo.c NOTES.md; do [ -f "$SRC/$f" ] && cp "$SRC/$f" "$OUT/"; done
-for f in "$SRC"/*.py "$SRC"/shim*.c "$SRC"/*.awk; do [ -f "$f" ] && cp "$f" "$OUT/"; done 2>/dev/null
+# helper files of the demonstration (untracked text files of the contributor's worktree)
+for f in $(git -C "$SRC" ls-files --others --exclude-standard | grep -v / | grep -E '\.(c|py|sh|awk|txt|md)$' | grep -v -E '^(mytest\.sh|AVOID\.txt)$'); do
+	[ -f "$SRC/$f" ] && [ "$(wc -c < "$SRC/$f")" -lt 100000 ] && cp "$SRC/$f" "$OUT/"
+done
 W=/tmp/ver_$NAME
 git -C /repo worktree remove --force "$W" >/dev/null 2>&1
 git -C /repo worktree add -q --detach "$W" HEAD || exit 2
 cd "$W"
 for f in demo.sh demo.c; do [ -f "$OUT/$f" ] && cp "$OUT/$f" .; done
-for f in "$OUT"/*.py "$OUT"/shim*.c; do [ -f "$f" ] && cp "$f" .; done 2>/dev/null
+for f in "$OUT"/*.py "$OUT"/*.c "$OUT"/*.sh "$OUT"/*.awk; do [ -f "$f" ] && cp "$f" .; done 2>/dev/null
 if ! git apply "$OUT/patch.diff"; then echo "PATCH DOES NOT APPLY"; applies=no; else applies=yes; fi
 make -s >/dev/null 2>&1; built=$?
 sed "s#/tmp/.neatvi#$W/.nvtmp#g" test.sh > mytest.sh; tests=$(sh mytest.sh 2>/dev/null | grep -c OK)
@@ -32,7 +35,7 @@ if [ "$applies" = yes ]; then
 	git -C /repo apply "$OUT/patch.diff" || exit 2
 	trap 'git -C /repo checkout -- . ' EXIT INT TERM
 	for c in "$@"; do
-		./run "$c" quick > "/tmp/seedrun_${NAME}_$c.log" 2>&1; rc=$?
+		NV_EVIDENCE_DIR=/tmp/seed_evidence ./run "$c" quick > "/tmp/seedrun_${NAME}_$c.log" 2>&1; rc=$?
 		nv=$(grep -c '^VIOLATION' "/tmp/seedrun_${NAME}_$c.log")
 		first=$(grep -m1 '^  \[' "/tmp/seedrun_${NAME}_$c.log" | cut -c1-300)
 		echo "check $c: exit=$rc violations_lines=$nv  $first"
